@@ -26,7 +26,7 @@ const RtImport = "github.com/teivah/majorana/verifrt"
 
 type Stats struct {
 	Files, ForLoops, CycleLoops, MapRanges, GoStmts, Sends, Added int
-	MapRangeSites                                                  []string
+	MapRangeSites                                                 []string
 }
 
 // Run instruments repo into out (created), maps rtFile as the verifrt package
